@@ -19,6 +19,9 @@ SUBS = ["MM", "0M", "MM.DD", "0M.0D", "MM.0D", "0M.DD", "JJJ", "00J", "Q", "Q.MM
 ISO_Y = ["GGGG", "GG", "0G"]
 ISO_W = ["VV", "0V"]
 GLUED = ["YYYY0M", "YYYY0M0D", "YYYY00J", "0Y0M", "0Y0M0D", "GGGG0V", "0G0V", "YYYY0W", "0Y0U", "YYYY.0M0D"]
+# coherent pairings whose separator is a literal upper-case letter (ISO 8601 basic notation `2020W05`, `2020M02`): the
+# texts are not PEP 440 versions, their order is judged on the integer tuples R1 reads back
+LETTERED = ["YYYYW0W", "YYYYM0M", "YYYYU0U", "0YW0W", "YYYY.0MD0D", "GGGGW0V", "YYYYD00J", "YYYY-W0W"]
 
 
 def coherent_patterns():
@@ -39,7 +42,7 @@ SPEC = dict(
           "Jan 1, leap year?) classes of year boundaries crossed + distinct mis-pairings + bump outcome classes"),
     assumptions=["packaging decides PEP 440 order of rendered texts; R1 supplies the integer tuples",
                  "a refusal (e.g. week 53, known finding of C02/C05) is not a backwards step"],
-    required=["day_pairs_rendered", "cli_dates", "bump_pairs", "bump_pairs_new_before_old", "bump_pairs_from_boundary_days", "bump_pin_date_cases", "mispairings_refused_in_file_patterns", "mispairings_refused_by_test",
+    required=["day_pairs_rendered", "day_pairs_with_a_letter_as_separator", "cli_dates", "bump_pairs", "bump_pairs_new_before_old", "bump_pairs_from_boundary_days", "bump_pin_date_cases", "mispairings_refused_in_file_patterns", "mispairings_refused_by_test",
               "mispairings_refused_by_loader", "mispairings_shown_non_monotone"],
     anchors=[("v2version", "cal_info"), ("v2version", "is_valid_week_pattern"), ("v2version", "_is_cal_gt"),
              ("config", "_validate_version_with_pattern")],
@@ -53,7 +56,7 @@ D1 = dt.date(2099, 12, 31)
 
 def cases(ctx):
     pats = coherent_patterns()
-    for i, p in enumerate(pats):
+    for i, p in enumerate(pats + LETTERED):
         if ctx.mine(i):
             yield {"kind": "lib", "pattern": p}
     k = 0
@@ -106,8 +109,10 @@ def run_lib(ctx, case):
         st = dict(base)
         st.update(ci._asdict())
         t = v2v.format_version(mk_vinfo(bvv, st), p)
-        v = vkey(t)
+        v = vkey(t) if p not in LETTERED else (0,)
         it = ints(ast, t)
+        if p in LETTERED:
+            ctx.counters["day_pairs_with_a_letter_as_separator"] += 1
         if v is None or it is None:
             ctx.violation("other:rendered_calendar_version_unreadable", f"{p!r} on {d}: {t!r} (pep440={v}, ints={it})",
                           case={"kind": "pair", "pattern": p, "date": d.isoformat()})
